@@ -37,7 +37,7 @@ import sys
 from concurrent.futures import ProcessPoolExecutor
 from pathlib import Path
 
-TOOL_VERSION = "racetable-6"
+TOOL_VERSION = "racetable-9"
 CLANG = os.environ.get("BFL_CLANG", "clang++-14")
 EIGEN_INC = "/usr/include/eigen3"
 
@@ -167,6 +167,8 @@ def field_kind(q, dq):
             return "mutex"
         if CONDVAR_T.match(t):
             return "condvar"
+        if re.match(r"^(class )?std::j?thread$", t):
+            return "thread"
     d = dq.strip()
     if SCALAR_T.match(d) or d.endswith("*") or d.endswith("&") or d.startswith("enum ") or SCALAR_T.match(q.strip()):
         return "plain"
@@ -300,6 +302,12 @@ class TU:
             key = n["_key"]
             w = Walker(self, key)
             w.function(n)
+            if w.spawn_pos is not None:
+                # what the spawning function does before it creates the thread is ordered before everything
+                # the new thread does (thread creation synchronises): not part of the concurrent phase
+                for r in w.rows:
+                    if (r["line"], r["col"]) < w.spawn_pos and r.get("kindhint") != "thread":
+                        r["pre_spawn"] = True
             b = self.bodies.setdefault(key, {"rows": [], "calls": [], "file": self.rel(n["_pos"][0]), "line": n["_pos"][1],
                                              "end_line": (n.get("_end") or n["_pos"])[1]})
             for r in w.rows:
@@ -308,6 +316,9 @@ class TU:
             for c in w.calls:
                 if c not in b["calls"]:
                     b["calls"].append(c)
+            for t in w.tops:
+                if t not in b.setdefault("tops", []):
+                    b["tops"].append(t)
 
 
 class Walker:
@@ -315,7 +326,10 @@ class Walker:
 
     def __init__(self, tu, key):
         self.tu, self.key = tu, key
-        self.rows, self.calls = [], []
+        self.rows, self.calls, self.tops = [], [], []
+        self.spawn_pos = None   # (line, col) of the first std::thread construction from a library function
+        self.lockvars = {}      # lock variable id -> (mutexes, id of the block it is declared in)
+        self.pending_manual = None
         self.held = []          # list of (var decl id, frozenset of (cls, mutexname)), innermost last
         self.stack = []         # ancestors of the node being visited
         self.in_thread_ctor = 0
@@ -328,6 +342,9 @@ class Walker:
                 if a and a.get("id") in self.tu.fields:
                     f = self.tu.fields[a["id"]]
                     self.row(f, "w", True, c)
+                    if f[2] == "thread":
+                        self.tops.append({"cls": f[0], "field": f[1], "op": "spawn" if self.refers_to_library_function(c) else "move",
+                                          "file": self.tu.rel(c.get("_pos", ("", 0, 0))[0]), "line": c.get("_pos", ("", 0, 0))[1]})
                 self.visit_children(c)
             elif c["kind"] in ("CompoundStmt", "CXXTryStmt"):
                 self.visit(c)
@@ -341,7 +358,7 @@ class Walker:
     def row(self, f, acc, self_base, node):
         cls, name, kind, ty = f
         file, line, col = node.get("_pos", ("", 0, 0))
-        self.rows.append({"cls": cls, "field": name, "acc": acc, "self": bool(self_base),
+        self.rows.append({"cls": cls, "field": name, "acc": acc, "self": bool(self_base), "kindhint": kind,
                           "locks": ["%s::%s" % m for m in self.locks_now()] if self_base else [],
                           "file": self.tu.rel(file), "line": line, "col": col})
 
@@ -378,6 +395,25 @@ class Walker:
             # A lambda handed directly to a call (cv.wait(lk, pred), algorithms) is taken to run at its
             # lexical position; a lambda that is stored (variable, std::function member, return value)
             # may run anywhere later: its body is visited with no lock held.
+            tgt = self.closure_target()
+            if tgt is not None:
+                # stored in a std::function member: its body becomes the pseudo-function `Class::member$closure`,
+                # called from wherever the member is invoked
+                key = (tgt[0], tgt[1] + "$closure", "")
+                w2 = Walker(self.tu, key)
+                w2.stack = [n]
+                for c in inner(n):
+                    if c["kind"] != "CXXRecordDecl":
+                        w2.visit(c)
+                b = self.tu.bodies.setdefault(key, {"rows": [], "calls": [], "file": self.tu.rel(n["_pos"][0]), "line": n["_pos"][1],
+                                                    "end_line": (n.get("_end") or n["_pos"])[1]})
+                for r in w2.rows:
+                    if r not in b["rows"]:
+                        b["rows"].append(r)
+                for c in w2.calls:
+                    if c not in b["calls"]:
+                        b["calls"].append(c)
+                return
             saved = self.held
             if not self.lambda_is_call_argument():
                 self.held = []
@@ -393,16 +429,38 @@ class Walker:
             self.visit_children(n)
             if LOCK_TYPES.match(qt(n)) or LOCK_TYPES.match(dqt(n)):
                 ms = self.lock_ctor_mutexes(n)
+                allms = self.lock_ctor_mutexes(n, ignore_tags=True)
+                blk = next((p for p in reversed(self.stack) if p["kind"] == "CompoundStmt"), None)
+                if allms and blk is not None:
+                    self.lockvars[n["id"]] = (frozenset(allms), blk.get("id"))
                 if ms:
                     self.held.append((n["id"], frozenset(ms)))
             return
         if k == "CXXMemberCallExpr":
             cs = inner(n)
-            if cs and cs[0]["kind"] == "MemberExpr" and cs[0].get("name") in ("unlock", "release"):
+            if cs and cs[0]["kind"] == "MemberExpr" and cs[0].get("name") in ("unlock", "release", "lock"):
+                nm = cs[0].get("name")
                 base = self.strip(inner(cs[0])[0]) if inner(cs[0]) else None
+                # a statement directly in a block: `x.lock();` can open a scope that lasts to the matching
+                # unlock / the end of that block; anywhere else (branch, loop body statement) it is ignored
+                blk = self.stack[-1] if self.stack and self.stack[-1]["kind"] == "CompoundStmt" else None
                 if base is not None and base["kind"] == "DeclRefExpr":
                     vid = (base.get("referencedDecl") or {}).get("id")
-                    self.held = [h for h in self.held if h[0] != vid]
+                    if nm == "lock":
+                        lv = self.lockvars.get(vid)
+                        if lv and blk is not None and blk.get("id") == lv[1] and not any(h[0] == vid for h in self.held):
+                            self.held.append((vid, lv[0]))
+                    else:
+                        self.held = [h for h in self.held if h[0] != vid]
+                elif base is not None and base["kind"] == "MemberExpr":
+                    f = self.tu.fields.get(base.get("referencedMemberDecl"))
+                    if f and f[2] == "mutex" and self.base_is_this(base):
+                        mk = "manual:%s::%s" % (f[0], f[1])
+                        if nm == "lock":
+                            if blk is not None and not any(h[0] == mk for h in self.held):
+                                self.pending_manual = (mk, frozenset([(f[0], f[1])]))
+                        else:
+                            self.held = [h for h in self.held if h[0] != mk]
         if k == "MemberExpr":
             self.member(n)
         elif k == "DeclRefExpr":
@@ -411,14 +469,47 @@ class Walker:
             cid = (n.get("ctorType") and None)
             is_thread = qt(n) in ("std::thread", "class std::thread") or dqt(n) == "std::thread"
             if is_thread:
+                if self.spawn_pos is None and self.refers_to_library_function(n):
+                    self.spawn_pos = (n.get("_pos", ("", 0, 0))[1], n.get("_pos", ("", 0, 0))[2])
                 self.in_thread_ctor += 1
                 self.visit_children(n)
                 self.in_thread_ctor -= 1
                 return
         elif k == "CXXOperatorCallExpr":
-            # `thread_member = std::thread(...)` is handled by the nested construct expression
-            pass
+            cs = inner(n)
+            callee = self.strip(cs[0]) if cs else None
+            if ((callee or {}).get("referencedDecl") or {}).get("name") == "operator()" and len(cs) > 1:
+                obj = self.strip(cs[1])
+                if obj is not None and obj["kind"] == "MemberExpr":
+                    f = self.tu.fields.get(obj.get("referencedMemberDecl"))
+                    if f and "std::function<" in f[3]:
+                        self.add_call((f[0], f[1] + "$closure", ""), "direct", self.base_is_this(obj))
         self.visit_children(n)
+        if k == "CXXMemberCallExpr" and self.pending_manual is not None:
+            self.held.append(self.pending_manual)
+            self.pending_manual = None
+
+    WRAPPERS = ("MaterializeTemporaryExpr", "CXXBindTemporaryExpr", "ImplicitCastExpr", "CXXConstructExpr",
+                "CXXFunctionalCastExpr", "ExprWithCleanups", "ParenExpr", "CXXTemporaryObjectExpr")
+
+    def closure_target(self):
+        """the std::function member a lambda is stored into (constructor initialiser or assignment), if any"""
+        for p in reversed(self.stack):
+            k = p["kind"]
+            if k in self.WRAPPERS:
+                continue
+            if k == "CXXCtorInitializer":
+                f = self.tu.fields.get((p.get("anyInit") or {}).get("id"))
+                return f if f and "std::function<" in f[3] else None
+            if k == "CXXOperatorCallExpr":
+                cs = inner(p)
+                lhs = self.strip(cs[1]) if len(cs) > 2 else None
+                if lhs is not None and lhs["kind"] == "MemberExpr":
+                    f = self.tu.fields.get(lhs.get("referencedMemberDecl"))
+                    if f and "std::function<" in f[3]:
+                        return f
+            return None
+        return None
 
     def lambda_is_call_argument(self):
         for p in reversed(self.stack):
@@ -443,17 +534,21 @@ class Walker:
                 b = self.strip(inner(cs[0])[0])
                 if b is not None and b["kind"] == "DeclRefExpr":
                     out.add((b.get("referencedDecl") or {}).get("id"))
+                elif b is not None and b["kind"] == "MemberExpr":
+                    f = self.tu.fields.get(b.get("referencedMemberDecl"))
+                    if f and f[2] == "mutex":
+                        out.add("manual:%s::%s" % (f[0], f[1]))
         for c in inner(n):
             out |= self.unlocked_in(c)
         return out
 
-    def lock_ctor_mutexes(self, var):
+    def lock_ctor_mutexes(self, var, ignore_tags=False):
         """mutex members of `this` locked by the constructor of a lock_guard/unique_lock/scoped_lock variable"""
         ms = []
 
         def scan(n, top):
             if NOLOCK_TAGS.search(qt(n)) and n["kind"] != "VarDecl":
-                return False
+                return True if ignore_tags else False
             if n["kind"] == "MemberExpr":
                 f = self.tu.fields.get(n.get("referencedMemberDecl"))
                 if f and f[2] == "mutex" and self.base_is_this(n):
@@ -477,8 +572,9 @@ class Walker:
         return b is not None and b["kind"] == "CXXThisExpr"
 
     # ---- call edges
-    def add_call(self, key, kind, on_this=False):
-        c = {"callee": list(key), "kind": kind, "this": bool(on_this),
+    def add_call(self, key, kind, on_this=False, node=None):
+        pos = (node or {}).get("_pos", ("", 0, 0))
+        c = {"callee": list(key), "kind": kind, "this": bool(on_this), "file": self.tu.rel(pos[0]) if pos[0] else "", "line": pos[1], "col": pos[2],
              "locks": ["%s::%s" % m for m in self.locks_now()] if on_this else []}
         if c not in self.calls:
             self.calls.append(c)
@@ -508,7 +604,7 @@ class Walker:
             parent = self.stack[-1] if self.stack else None
             if parent is not None and parent["kind"] == "CXXMemberCallExpr" and inner(parent)[0] is m:
                 # a call `x.C::f()` with explicit qualification is not dispatched virtually
-                self.add_call(key, "direct" if self.explicitly_qualified(m) else "member", self.base_is_this(m))
+                self.add_call(key, "direct" if self.explicitly_qualified(m) else "member", self.base_is_this(m), m)
             else:
                 self.add_call(key, "spawn" if self.in_thread_ctor else "ref")
             return
@@ -517,9 +613,49 @@ class Walker:
             return
         acc = self.classify(m, f)
         self.row(f, acc, self.base_is_this(m), m)
+        if f[2] == "thread":
+            file, line, col = m.get("_pos", ("", 0, 0))
+            self.tops.append({"cls": f[0], "field": f[1], "op": self.thread_op(m), "file": self.tu.rel(file), "line": line})
         via = self.via_callee(m, f)
         if via is not None:
             self.rows[-1]["via"] = list(via)
+
+    def refers_to_library_function(self, n):
+        if n.get("kind") == "DeclRefExpr" and ((n.get("referencedDecl") or {}).get("id") in self.tu.funcs):
+            return True
+        return any(self.refers_to_library_function(c) for c in inner(n))
+
+    def thread_op(self, m):
+        """what is done to a std::thread member: spawn (assigned a thread constructed from a library
+        function), join, joinable, detach, move (moved from / swapped / assigned another thread), query, other"""
+        chain = list(reversed(self.stack))
+        cur, i = m, 0
+        while i < len(chain) and (chain[i]["kind"] == "ParenExpr" or (chain[i]["kind"] == "ImplicitCastExpr"
+                                  and chain[i].get("castKind") in ("NoOp", "DerivedToBase", "UncheckedDerivedToBase"))):
+            cur = chain[i]
+            i += 1
+        if i >= len(chain):
+            return "other"
+        p = chain[i]
+        if p["kind"] == "MemberExpr" and inner(p) and inner(p)[0] is cur:
+            nm = p.get("name", "")
+            if nm in ("join", "detach", "joinable"):
+                return nm
+            if nm in ("get_id", "native_handle"):
+                return "query"
+            if nm == "swap":
+                return "move"
+            return "other"
+        if p["kind"] == "CXXOperatorCallExpr":
+            cs = inner(p)
+            callee = self.strip(cs[0]) if cs else None
+            nm = ((callee or {}).get("referencedDecl") or {}).get("name", "")
+            if nm == "operator=" and len(cs) > 2 and cs[1] is cur:
+                return "spawn" if self.refers_to_library_function(cs[2]) else "move"
+            return "move"
+        if p["kind"] == "CallExpr":
+            return "move"          # std::move(t), std::swap(t, u), passed by reference
+        return "other"
 
     def via_callee(self, m, f):
         """the member object (of a class type) is only used as the object of a call of a function of the
@@ -654,6 +790,9 @@ def tree_hash(repo):
     return h.hexdigest()[:24]
 
 
+ESC_RET = re.compile(r"(&|\*|\bEigen::(Ref|Map|Block)\s*<[^()]*>)\s*(const\s*)?$")
+
+
 def translation_units(repo):
     """the sources the library is built from (CMakeLists.txt of the library; commented entries skipped);
     falls back to every src/*.cpp"""
@@ -745,6 +884,9 @@ def merge(res):
             for c in b["calls"]:
                 if c not in d["calls"]:
                     d["calls"].append(c)
+            for t in b.get("tops", []):
+                if t not in d.setdefault("tops", []):
+                    d["tops"].append(t)
 
     # class hierarchy
     def ancestors(c, seen=None):
@@ -785,7 +927,7 @@ def merge(res):
             methods[k] = {"cls": k[0], "name": k[1], "sig": k[2], "virtual": False, "pure": False, "kind": "FunctionDecl", "body": True}
 
     # call edges, virtual calls expanded over the hierarchy
-    calls, sites = [], []
+    calls, sites, site_pos = [], [], []
     for k, b in bodies.items():
         for c in b["calls"]:
             callee = tuple(c["callee"])
@@ -817,6 +959,8 @@ def merge(res):
                 if e not in calls:
                     calls.append(e)
                 sites.append((k, t, kd, bool(c.get("this")), tuple(c.get("locks", []))))
+                if c.get("line"):
+                    site_pos.append((k, t, kd, bool(c.get("this")), c.get("file", ""), c["line"], c.get("col", 0)))
 
     fields = []
     for c in sorted(classes):
@@ -842,10 +986,25 @@ def merge(res):
                       "kind": m["kind"], "body": m["body"], "file": b.get("file", ""), "line": b.get("line", 0), "end_line": b.get("end_line", 0)})
     mid = {k: i for i, k in enumerate(mkeys)}
     fid = {(f["cls"], f["name"]): i for i, f in enumerate(fields)}
+    # a function that hands out a reference / pointer / Eigen::Ref into its object: the access really happens where
+    # the caller uses the result — copy the accessor's member rows to every call site (no lock credited)
+    for (k, t, kd, th, file, line, col) in site_pos:
+        if kd in ("direct", "virtual") and t in bodies and t in methods and ESC_RET.search(t[2].split("(")[0].strip()):
+            for r in bodies[t]["rows"]:
+                if r.get("kindhint") in ("atomic", "mutex", "condvar") or r.get("via") or r.get("from_accessor"):
+                    continue
+                nr = dict(r, locks=[], file=file or bodies[k]["file"], line=line, col=col, from_accessor=True)
+                nr["self"] = bool(r["self"] and th)
+                nr.pop("pre_spawn", None)
+                if nr not in bodies[k]["rows"]:
+                    bodies[k]["rows"].append(nr)
     accesses, via_rows = [], []
     for k in mkeys:
         for r in bodies.get(k, {}).get("rows", []):
             if (r["cls"], r["field"]) not in fid:
+                continue
+            if r.get("pre_spawn"):
+                via_rows.append({"meth": mid[k], "field": fid[(r["cls"], r["field"])], "line": r["line"], "via": "before the thread is created"})
                 continue
             if r.get("via") and tuple(r["via"]) in bodies:
                 # object of a call into the library: the callee's rows say what is touched
@@ -855,10 +1014,16 @@ def merge(res):
                              "locks": sorted(fid[tuple(l.split("::", 1))] for l in r["locks"] if tuple(l.split("::", 1)) in fid),
                              "file": r["file"], "line": r["line"], "col": r["col"]})
     accesses.sort(key=lambda a: (a["meth"], a["file"], a["line"], a["col"], a["field"], a["acc"]))
+    thread_ops = []
+    for k in mkeys:
+        for t in bodies.get(k, {}).get("tops", []):
+            if (t["cls"], t["field"]) in fid:
+                thread_ops.append({"meth": mid[k], "field": fid[(t["cls"], t["field"])], "op": t["op"], "file": t["file"], "line": t["line"]})
+    thread_ops.sort(key=lambda t: (t["meth"], t["line"], t["op"]))
     clist = sorted({(mid[a], mid[b], kd) for a, b, kd in calls})
     slist = sorted({(mid[a], mid[b], kd, th, tuple(sorted(fid[tuple(l.split("::", 1))] for l in lk if tuple(l.split("::", 1)) in fid)))
                     for a, b, kd, th, lk in sites})
-    return {"fields": fields, "methods": mlist, "accesses": accesses, "accesses_via": via_rows,
+    return {"fields": fields, "methods": mlist, "accesses": accesses, "accesses_via": via_rows, "thread_ops": thread_ops,
             "calls": [{"caller": a, "callee": b, "kind": kd} for a, b, kd in clist],
             "call_sites": [{"caller": a, "callee": b, "kind": kd, "this": th, "locks": list(lk)} for a, b, kd, th, lk in slist],
             "classes": {c: {"bases": classes[c]["bases"], "ancestors": anc[c]} for c in sorted(classes)}}
@@ -876,6 +1041,19 @@ def role_roots(model_path):
             raise RuntimeError("role map %s not found in %s" % (d, model_path))
         out[role] = re.findall(r'name%\s*"([^"]+)"', m.group(1))
     return out
+
+
+EXTENDED_CONTROLLER = ["Logger::enable_log", "Logger::disable_log", "Logger::get_folder_path", "Logger::get_file_name_prefix"]
+
+
+def advisory_extended_role(facts, roots):
+    """What would be undisciplined if the owner also called the logging configuration functions from its
+    thread while the filter runs.  They are not control / query commands of the property (not part of the
+    obligation); reported as information only."""
+    ext = {"controller": list(roots["controller"]) + EXTENDED_CONTROLLER, "filter": list(roots["filter"])}
+    base = {v["name"] for v in discipline(facts, roots)["verdicts"] if not v["ok"]}
+    d = discipline(facts, ext)
+    return sorted(v["name"] for v in d["verdicts"] if not v["ok"] and v["name"] not in base)
 
 
 def apply_entry_locks(facts, roots):
@@ -914,10 +1092,16 @@ def apply_entry_locks(facts, roots):
             if acc is not TOP and acc != entry[i]:
                 entry[i] = acc
                 changed = True
+    for m in M:
+        m["escapes"] = bool(m["body"] and ESC_RET.search(m["sig"].split("(")[0].strip()))
     for a in A:
         a.setdefault("locks_syntactic", list(a["locks"]))
         e = entry.get(a["meth"])
-        if a["self"] and e:
+        if M[a["meth"]]["escapes"]:
+            # the function hands out a reference / pointer / Eigen::Ref: what it refers to may be used after
+            # every scope has been left, so no lock is credited to the member accesses inside it
+            a["locks"] = []
+        elif a["self"] and e:
             a["locks"] = sorted(set(a["locks_syntactic"]) | set(e))
         else:
             a["locks"] = list(a["locks_syntactic"])
@@ -965,8 +1149,34 @@ def discipline(facts, roots):
                 break
         verdicts.append({"field": f, "name": F[f]["cls"] + "::" + F[f]["name"], "kind": F[f]["kind"], "ok": wit is None,
                          "witness": None if wit is None else {"controller": wit[0], "filter": wit[1]}})
+    # thread handles (mirror of Table.joinCertifiedIn)
+    TO = facts.get("thread_ops", [])
+    SC, SF = reach["controller"], reach["filter"]
+    is_thread = lambda f: F[f]["kind"] == "thread"
+    nm = lambda i: M[i]["name2"]
+    BOOT, WAIT = "FilteringAlgorithm::boot", "FilteringAlgorithm::wait"
+    hp = []
+    for o in TO:
+        where = "%s (%s:%d)" % (M[o["meth"]]["qual"], o["file"].split("/")[-1], o["line"])
+        h = F[o["field"]]["cls"] + "::" + F[o["field"]]["name"]
+        if o["meth"] in SF:
+            hp.append({"key": "%s:%s" % (M[o["meth"]]["qual"], o["op"]), "what": "the filtering thread operates on the thread handle %s: %s in %s" % (h, o["op"], where)})
+        if o["meth"] in SC:
+            ok = (o["op"] == "spawn" and nm(o["meth"]) == BOOT) or (o["op"] == "join" and nm(o["meth"]) == WAIT) or o["op"] in ("joinable", "query")
+            if not ok:
+                hp.append({"key": "%s:%s" % (M[o["meth"]]["qual"], o["op"]),
+                           "what": "%s performs `%s` on the thread handle %s: the join in wait() no longer orders the filtering thread's accesses before what follows wait()" % (where, o["op"], h)})
+    if not any(o["op"] == "join" and nm(o["meth"]) == WAIT and o["meth"] in SC for o in TO):
+        hp.append({"key": "FilteringAlgorithm::wait:no-join", "what": "wait() contains no join() of the filtering thread"})
+    for a in A:
+        if is_thread(a["field"]) and (a["meth"] in SF or (a["meth"] in SC and nm(a["meth"]) not in (BOOT, WAIT))):
+            k = "%s:access" % M[a["meth"]]["qual"]
+            if not any(p["key"].startswith(M[a["meth"]]["qual"] + ":") for p in hp):
+                hp.append({"key": k, "what": "%s (%s:%d) touches the thread handle %s::%s outside boot()/wait()" % (
+                    M[a["meth"]]["qual"], a["file"].split("/")[-1], a["line"], F[a["field"]]["cls"], F[a["field"]]["name"])})
     missing = {role: [n for n in names if not any(m["name2"] == n for m in M)] for role, names in roots.items()}
-    return {"roots": rootids, "reach": {r: sorted(s) for r, s in reach.items()}, "shared": shared, "verdicts": verdicts, "missing_roots": missing}
+    return {"join_certified": not hp, "handle_problems": hp,
+            "roots": rootids, "reach": {r: sorted(s) for r, s in reach.items()}, "shared": shared, "verdicts": verdicts, "missing_roots": missing}
 
 
 # ----------------------------------------------------------------------------- independent textual cross-check
@@ -1006,12 +1216,18 @@ def token_oracle(facts, repo):
     classes = facts["classes"]
     have = {(a["meth"], F[a["field"]]["cls"], F[a["field"]]["name"]) for a in A}
     have_any = {(a["meth"], F[a["field"]]["name"]) for a in A} | {(a["meth"], F[a["field"]]["name"]) for a in facts.get("accesses_via", [])}
+    closure_rows = [(M[a["meth"]]["file"], a["line"], F[a["field"]]["name"]) for a in A if "$closure" in M[a["meth"]]["name"]]
+    for mi, m in enumerate(M):
+        if m["body"] and m.get("end_line"):
+            for (cf, cl, cn) in closure_rows:
+                if cf == m["file"] and m["line"] <= cl <= m["end_line"]:
+                    have_any.add((mi, cn))
     fields_of = {}
     for f in F:
         fields_of.setdefault(f["cls"], set()).add(f["name"])
     texts, missing = {}, []
     for mi, m in enumerate(M):
-        if not m["body"] or not m["file"] or m["cls"] not in classes or not m.get("end_line"):
+        if not m["body"] or not m["file"] or m["cls"] not in classes or not m.get("end_line") or "$closure" in m["name"]:
             continue
         names = {}
         for c in [m["cls"]] + classes[m["cls"]]["ancestors"]:
@@ -1050,10 +1266,12 @@ def code(s):
 def encode_table(facts):
     """the table as the token list of the driver's `c10` entries (lean/BFL/Driver/Race.lean)"""
     F, M, A, C = facts["fields"], facts["methods"], facts["accesses"], facts["calls"]
-    fk = {"atomic": 0, "plain": 1, "mutex": 2, "condvar": 3, "other": 4}
+    fk = {"atomic": 0, "plain": 1, "mutex": 2, "condvar": 3, "other": 4, "thread": 5}
+    tk = {"spawn": 0, "join": 1, "joinable": 2, "detach": 3, "move": 4, "query": 5, "other": 6}
+    TO = facts.get("thread_ops", [])
     ak = {"r": 0, "w": 1, "rw": 2}
     ck = {"direct": 0, "virtual": 1, "ref": 2, "spawn": 3}
-    t = [len(F), len(M), len(A), len(C)]
+    t = [len(F), len(M), len(A), len(C), len(TO)]
     for f in F:
         t += [code(f["cls"]), code(f["name"]), fk[f["kind"]]]
     for m in M:
@@ -1062,6 +1280,8 @@ def encode_table(facts):
         t += [a["meth"], a["field"], ak[a["acc"]], int(a["self"]), a["line"], len(a["locks"])] + list(a["locks"])
     for c in C:
         t += [c["caller"], c["callee"], ck[c["kind"]]]
+    for o in TO:
+        t += [o["meth"], o["field"], tk[o["op"]], o["line"]]
     return " ".join(str(x) for x in t)
 
 
@@ -1120,7 +1340,15 @@ def emit_lean(facts, disc=None):
     w("/-- call edges (virtual calls already expanded to the overriders known in the library) -/")
     w("def calls : List Call := " + (" ++ ".join("calls%d" % c for c in range(nchunks)) if nchunks else "[]"))
     w("")
-    w("def table : Table := ⟨fields, methods, accesses, calls⟩")
+    w("/-- operations on std::thread members: function, field, operation, line -/")
+    w("def threadOps : List ThreadOp := [")
+    TO = facts.get("thread_ops", [])
+    for i, t in enumerate(TO):
+        w("  ⟨%d, %d, .%s, %d⟩%s -- %s %s.%s" % (t["meth"], t["field"], t["op"], t["line"], "," if i + 1 < len(TO) else "",
+                                              M[t["meth"]]["qual"], F[t["field"]]["cls"], F[t["field"]]["name"]))
+    w("]")
+    w("")
+    w("def table : Table := ⟨fields, methods, accesses, calls, threadOps⟩")
     w("")
     if disc is not None:
         bad = [v for v in disc["verdicts"] if not v["ok"]]
